@@ -96,6 +96,8 @@ func c07VisBatch(nm c07Names, idx []int, cases []c07Case) string {
 		case "dynamic":
 			pre = fmt.Sprintf("$nm = \"%s\"; ", name)
 			target = "$o->$nm"
+		case "returned-this":
+			target = "$o->self()->" + name
 		case "index":
 			target = fmt.Sprintf("$o[\"%s\"]", name)
 		case "this":
@@ -154,6 +156,7 @@ func c07VisBatch(nm c07Names, idx []int, cases []c07Case) string {
 			top = append(top, fmt.Sprintf("try { echo \"P%d|\", %s::peek%d($o), \"\\n\"; } catch (\\Throwable $e) { echo \"P%d|err\\n\"; }", i, nm.D, i, i))
 		}
 	}
+	body[nm.D] = append(body[nm.D], "  public function self() { return $this; }")
 	var sb strings.Builder
 	for _, t := range traits {
 		sb.WriteString(t + "\n")
